@@ -773,7 +773,9 @@ def replay_member(model, obl, c):
             "error": err, "expected_tell": oracle.tell(), "actual_tell": atell, "mode": c.mode}
 
 
-def run(ctx):
+def verify_archive_layer(ctx, members_only=False):
+    """the contracts of debian.arfile; members_only: ArMember (read / readline / readlines / seek / tell / from_file) without the
+    ArFile index - the part other properties' code reads package parts through (used by C07)"""
     w = build_world()
     cs = contracts()
     for c in cs:
@@ -789,9 +791,16 @@ def run(ctx):
     # one contract object per (function, mode); World keeps the last registered per function for
     # modular calls, verification iterates over all variants
     reps = {c.qualname: replay_member for c in cs if isinstance(c, MemberContract)}
+    if members_only:
+        cs = [c for c in cs if isinstance(c, (MemberContract, FromFile))]
     verify_contracts(ctx, w, cs, reps)
-    verify_lemmas(ctx, w, [LemLen(), LemIdx(), LemLastKey(), LemLast()])
+    if not members_only:
+        verify_lemmas(ctx, w, [LemLen(), LemIdx(), LemLastKey(), LemLast()])
     ctx.solve()
+
+
+def run(ctx):
+    verify_archive_layer(ctx)
     ev, nt, samples = bounded_arfile(ctx)
     ctx.bounded("B-06 ArFile(listing, getmember, header fields) + interleaved member operations vs io.BytesIO",
                 ev, len(nt), "archives of 0..3 members over 9 contents (empty, odd/even sizes, lone CR, CRLF, NUL/VT/FF/high bytes, with/without final "
